@@ -60,11 +60,28 @@ def gen_line(rng):
             out.append(rng.choice("0123456789"))
         else:
             out.append(rng.choice(" \t;:,.()=+-*/<>'$%#!?@[]\\^_`{|}~&"))
+    if rng.random() < 0.08:
+        # characters str.splitlines() cuts on but a text file read line by line does not
+        out.insert(rng.randint(0, len(out)), rng.choice(EXOTIC))
     return "".join(out)
+
+
+EXOTIC = ["\x0b", "\x0c", "\x1c", "\x1d", "\x1e", "\x85", "\u2028", "\u2029"]
+
+
+def gen_long_line(rng):
+    """a line whose length sits on, just before or just after a usual line or buffer limit, with a literal open across it"""
+    n = rng.choice([255, 256, 257, 512, 1023, 1024, 4095, 4096, 4097, 8192, 8193]) + rng.choice([-1, 0, 0, 1])
+    cut = rng.randint(max(0, n - 300), n)
+    head = ('10 print "' + "ab" * n)[:max(cut - 1, 0)]
+    tail = ('" :goto' + " xy" * n)
+    return (head + tail)[:n]
 
 
 def gen_text(rng, files):
     lines = [gen_line(rng) for _ in range(rng.choice([0, 1, 1, 2, 3, 6]))]
+    if rng.random() < 0.05:
+        lines.insert(rng.randint(0, len(lines)), gen_long_line(rng))
     term = rng.choice(["\n", "\n", "\n", "\r\n", "\r"]) if files else "\n"
     t = term.join(lines)
     if lines and rng.random() < 0.8:
